@@ -1,6 +1,6 @@
 ---------------------------- MODULE MC_Builtins ----------------------------
 (* Per-function input spaces over small alphabets (exhaustive to the stated lengths), exported as cases
-   {id, fn, args}; and the model check:  Part = "main"  the implementation-shaped models meet the reference on
+   {id, fn, args} (Part = "export"); and the model check:  Part = "main"  the implementation-shaped models meet the reference on
    every case and the reference definitions are consistent with each other;  Part = "table"  the model of
    lookupJSONSpace [TableSize] and its two users against the white-space reference for every byte string of
    length <= TableLen over all 256 byte values (diagnostic). *)
@@ -8,25 +8,29 @@ EXTENDS Builtins, TLC, Json, SequencesExt
 CONSTANTS Deep, Part, TableSize, TableLen
 
 SQ(S) == SetToSeq(S)
-Bytes(S, n) == SeqsUpTo(S, n)
+\* (every space is empty unless this is the export run: TLC evaluates constant definitions eagerly in every run)
+Ex == Part = "export"
+Bytes(S, n) == IF Ex THEN SeqsUpTo(S, n) ELSE {}
+Fn(k, S) == IF Ex THEN [1..k -> S] ELSE {}
 Mk(fn, argsSeq) == [i \in 1..Len(argsSeq) |-> [fn |-> fn, args |-> argsSeq[i]]]
 One(S) == SQ({<<s>> : s \in S})
 Two(S, P) == SQ({<<s, p>> : s \in S, p \in P})
-AllBytes1 == {<<b>> : b \in 0..255}
+AllBytes1 == IF Ex THEN {<<b>> : b \in 0..255} ELSE {}
 DecTextOf(x) == LET ds == BI!ToDigits(x) IN (IF x.s < 0 THEN <<45>> ELSE <<>>) \o [i \in 1..Len(ds) |-> 48 + ds[i]]
 
 (* ---- QueryEscape ---- *)
 QEAlpha == {97, 90, 48, 45, 46, 95, 126, 43, 32, 37, 38, 61, 0, 127, 128, 255, 47}
-QEStrings == Bytes(QEAlpha, IF Deep THEN 4 ELSE 3) \cup AllBytes1 \cup (IF Deep THEN [1..2 -> 0..255] ELSE {})
-FVStrings == Bytes(QEAlpha, IF Deep THEN 3 ELSE 2) \cup AllBytes1
+QEStrings == AllBytes1 \cup (IF Deep THEN Bytes(QEAlpha, 4) \cup Fn(2, 0..255) ELSE Bytes(QEAlpha, 2) \cup Fn(3, {97, 126, 43, 32, 37, 255}))
+FVStrings == AllBytes1 \cup Bytes(QEAlpha, IF Deep THEN 3 ELSE 1)
 
 (* ---- Abbreviate ---- *)
 AbTok == {<<97>>, <<32>>, <<46>>, <<44>>, <<195, 169>>, <<226, 130, 172>>, <<255>>, <<10>>}
 AbTok3 == {<<97>>, <<32>>, <<195, 169>>}
 Flat(Q) == {Flatten(q) : q \in Q}
 AbShort == Flat(Bytes(AbTok, IF Deep THEN 4 ELSE 3))
-AbLong == Flat(UNION {[1..k -> AbTok3] : k \in 4..(IF Deep THEN 8 ELSE 6)})
-AbCases == SQ({<<s, n>> : s \in AbShort, n \in -1..7}) \o SQ({<<s, n>> : s \in AbLong, n \in 2..(IF Deep THEN 9 ELSE 7)})
+AbLong == Flat(UNION {Fn(k, AbTok3) : k \in 4..(IF Deep THEN 8 ELSE 5)})
+AbCases == SQ({<<s, n>> : s \in AbShort, n \in (IF Deep THEN -1..7 ELSE {-1, 0, 2, 3, 4, 5, 6})})
+           \o SQ({<<s, n>> : s \in AbLong, n \in 3..(IF Deep THEN 9 ELSE 6)})
 
 (* ---- JSON white space ---- *)
 D1 == <<49>>
@@ -37,30 +41,31 @@ IB == {<<>>} \cup {<<b>> : b \in {9, 10, 13, 32, 0, 31, 33, 127, 128, 254, 255, 
 IB2 == {<<x, y>> : x, y \in {9, 10, 13, 32, 0, 31, 33, 127, 128, 254, 255, 97}}
 WS2 == Bytes({32, 9}, 2)
 MJICases ==
-     SQ({<<d, p, <<>> >> : d \in {D1, DL, DM}, p \in AllBytes1})
-  \o SQ({<<d, <<>>, p>> : d \in {D1, DL, DM}, p \in AllBytes1})
-  \o SQ({<<d, p, q>> : d \in {D1, DL, DM}, p \in IB, q \in IB})
+     SQ({<<d, p, <<>> >> : d \in (IF Deep THEN {D1, DL, DM} ELSE {DL}), p \in AllBytes1})
+  \o SQ({<<d, <<>>, p>> : d \in (IF Deep THEN {D1, DL, DM} ELSE {DL}), p \in AllBytes1})
+  \o SQ({<<d, p, q>> : d \in (IF Deep THEN {D1, DL, DM} ELSE {D1, DM}), p \in IB, q \in IB})
   \o SQ({<<DL, p, q>> : p \in IB2, q \in {<<>>, <<32>>}})
   \o SQ({<<DL, q, p>> : p \in IB2, q \in {<<>>, <<32>>}})
   \o SQ({<<d, p, q>> : d \in ValidDocs, p \in WS2, q \in WS2})
   \o SQ({<<d, p, q>> : d \in Unmarshalable, p \in {<<>>, <<32>>, <<255>>}, q \in {<<>>, <<9>>, <<97>>}})
-  \o (IF Deep THEN SQ({<<D1, p, <<>> >> : p \in [1..2 -> 0..255]}) ELSE <<>>)
+  \o (IF Deep THEN SQ({<<D1, p, <<>> >> : p \in Fn(2, 0..255)}) ELSE <<>>)
 Pads == {<<>>, <<32>>, <<10, 9>>}
+PadPairs == IF Deep THEN Pads \X Pads ELSE {<<<<>>, <<>>>>, <<<<32>>, <<10, 9>>>>}
 PIs == { <<<<>>, <<>>>>, <<<<32>>, <<9>>>>, <<<<9, 9>>, <<32, 32>>>>, <<<<10>>, <<>>>>, <<<<>>, <<13>>>>,
          <<<<97>>, <<>>>>, <<<<>>, <<255>>>>, <<<<0>>, <<>>>> }
 IJCases ==
-     SQ({<<w1 \o d \o w2, pi[1], pi[2]>> : d \in ValidDocs \cup InvalidDocs, w1 \in Pads, w2 \in Pads, pi \in PIs})
+     SQ({<<w[1] \o d \o w[2], pi[1], pi[2]>> : d \in ValidDocs \cup InvalidDocs, w \in PadPairs, pi \in PIs})
   \o SQ({<<DL, p, <<>> >> : p \in AllBytes1}) \o SQ({<<DM, <<>>, p>> : p \in AllBytes1})
 MJCases == One(ValidDocs \cup Unmarshalable)
 JPunct == {91, 93, 123, 125, 34, 58, 44, 49, 45, 46, 101, 110, 116, 102, 32, 92, 0, 255}
 YPunct == {45, 32, 58, 10, 91, 123, 38, 42, 33, 124, 62, 39, 34, 35, 37, 64, 96, 97, 9, 0, 255}
-Padded == {w1 \o d \o w2 : d \in ValidDocs \cup InvalidDocs, w1 \in Pads, w2 \in Pads}
-UJData == AllBytes1 \cup [1..2 -> JPunct] \cup Padded
-UJCases == SQ({<<d, t>> : d \in UJData, t \in Targets})
-           \o (IF Deep THEN SQ({<<d, t>> : d \in [1..3 -> JPunct], t \in {"any", "ints"}}) ELSE <<>>)
-UYData == AllBytes1 \cup [1..2 -> YPunct] \cup Padded
-UYCases == SQ({<<d, t>> : d \in UYData, t \in {"any", "ints", "map", "nil", "nonptr"}})
-           \o (IF Deep THEN SQ({<<d, "any">> : d \in [1..3 -> YPunct]}) ELSE <<>>)
+Padded == {w[1] \o d \o w[2] : d \in ValidDocs \cup InvalidDocs, w \in PadPairs}
+UJData == AllBytes1 \cup Fn(2, JPunct) \cup Padded
+UJCases == SQ({<<d, t>> : d \in (IF Deep THEN UJData ELSE Padded), t \in Targets})
+           \o (IF Deep THEN SQ({<<d, t>> : d \in Fn(3, JPunct), t \in {"any", "ints"}}) ELSE SQ({<<d, "any">> : d \in UJData}))
+UYData == AllBytes1 \cup Fn(2, YPunct) \cup Padded
+UYCases == SQ({<<d, t>> : d \in (IF Deep THEN UYData ELSE Padded), t \in {"any", "ints", "map", "nil", "nonptr"}})
+           \o (IF Deep THEN SQ({<<d, "any">> : d \in Fn(3, YPunct)}) ELSE SQ({<<d, "any">> : d \in UYData}))
 
 (* ---- integers ---- *)
 Ints == {BI!Zero, BI!One, BI!FromInt(-1), BI!FromInt(2), BI!FromInt(-2), BI!FromInt(22), MaxI64, BI!Sub(MaxI64, BI!One),
@@ -69,11 +74,11 @@ IntTexts == {DecTextOf(x) : x \in Ints}
 
 (* ---- search helpers (bytes) and code-point helpers ---- *)
 AB == {97, 98, 255}
-SearchCases == Two(Bytes(AB, IF Deep THEN 4 ELSE 3), Bytes(AB, 3))
+SearchCases == Two(Bytes(AB, IF Deep THEN 4 ELSE 3), Bytes(AB, IF Deep THEN 3 ELSE 2))
 RB == {97, 195, 169, 255}
-RuneCases == Two(Bytes(RB, IF Deep THEN 4 ELSE 3), Bytes(RB, 2))
+RuneCases == IF Deep THEN Two(Bytes(RB, 4), Bytes(RB, 2)) ELSE Two(Bytes(RB, 3), Bytes(RB, 1)) \o Two(Bytes(RB, 2), Fn(2, RB))
 Odd == {<<195, 169>>, <<97, 195, 169>>, <<255, 97>>, <<195>>}
-ReplS == Bytes({97, 98}, 4) \cup Odd
+ReplS == Bytes({97, 98}, IF Deep THEN 4 ELSE 3) \cup Odd
 ReplCases == SQ({<<s, o, nw, n>> : s \in ReplS, o \in Bytes({97, 98}, 2), nw \in {<<>>, <<99>>, <<97, 98>>}, n \in {-1, 0, 1, 2, 3}})
 ReplAllCases == SQ({<<s, o, nw>> : s \in ReplS, o \in Bytes({97, 98}, 2), nw \in {<<>>, <<99>>, <<97, 98>>}})
 SplS == Bytes({97, 44}, IF Deep THEN 6 ELSE 4) \cup Odd
@@ -95,8 +100,10 @@ EncCases == One(Bytes({0, 97, 255, 250}, IF Deep THEN 5 ELSE 4) \cup AllBytes1)
 (* ---- case helpers (ASCII, boundaries of the letter ranges) ---- *)
 CA == {97, 122, 65, 90, 53, 95, 32, 45, 64, 91, 96, 123}
 CA8 == {97, 122, 65, 90, 53, 95, 32, 64}
-CaseStrings == IF Deep THEN Bytes(CA, 3) \cup Bytes(CA8, 4) ELSE Bytes(CA, 3)
-KebabStrings == (IF Deep THEN Bytes(CA, 4) ELSE Bytes(CA, 3)) \cup UNION {[1..k -> {97, 66, 53, 45}] : k \in 4..(IF Deep THEN 6 ELSE 5)}
+CaseStrings == IF Deep THEN Bytes(CA, 3) \cup Bytes(CA8, 4) ELSE Bytes(CA8, 3) \cup Bytes(CA, 2)
+CapTok == {<<196, 177>>, <<201, 144>>, <<195, 169>>, <<255>>, <<32>>, <<97>>}      \* dotless i, turned a, e-acute, an invalid byte
+CapStrings == CaseStrings \cup Flat(Bytes(CapTok, 3))
+KebabStrings == (IF Deep THEN Bytes(CA, 4) ELSE Bytes(CA, 3)) \cup UNION {Fn(k, {97, 66, 53, 45}) : k \in 4..(IF Deep THEN 6 ELSE 4)}
 
 (* ---- parsers ---- *)
 PI == {45, 43, 48, 49, 57, 97, 122, 95, 32}
@@ -105,7 +112,7 @@ Hex16(first) == <<first>> \o [i \in 1..15 |-> IF first = 55 THEN 102 ELSE 48]   
 BigLits == { <<DecTextOf(MaxI64), 10>>, <<DecTextOf(BI!Add(MaxI64, BI!One)), 10>>, <<DecTextOf(MinI64), 10>>,
              <<DecTextOf(BI!Sub(MinI64, BI!One)), 10>>, <<Hex16(55), 16>>, <<Hex16(56), 16>>, <<<<45>> \o Hex16(56), 16>>,
              <<<<45>> \o Hex16(56), 17>>, <<[i \in 1..40 |-> 57], 10>>, <<[i \in 1..64 |-> 49], 2>>, <<[i \in 1..63 |-> 49], 2>> }
-PICases == Two(Bytes(PI, 3), Bases) \o SQ(BigLits)
+PICases == (IF Deep THEN Two(Bytes(PI, 3), Bases) ELSE Two(Bytes(PI, 2), Bases) \o Two(Fn(3, PI), {10, 16})) \o SQ(BigLits)
 PFCases == One(Bytes({48, 49, 46, 101, 45, 120, 43, 78, 73, 95}, IF Deep THEN 4 ELSE 3) \cup AllBytes1)
 PDCases == One(Bytes({49, 48, 104, 109, 115, 110, 117, 46, 45}, IF Deep THEN 4 ELSE 3) \cup AllBytes1
                \cup {<<51, 48, 48, 109, 115>>, <<50, 104>>, <<57, 57, 57, 57, 57, 57, 104>>, <<49, 194, 181, 115>>})
@@ -124,19 +131,34 @@ FICases == SQ({<<DecTextOf(x), b>> : x \in Ints \cup {BI!FromInt(35), BI!FromInt
 FFCases == SQ({<<f, fm, p>> : f \in {0, 1, -5, 100}, fm \in {<<101>>, <<102>>, <<103>>, <<>>, <<120>>, <<101, 102>>, <<69>>},
                               p \in {-2, -1, 0, 3, 1000, 1001}})
 RePunct == {40, 41, 91, 93, 42, 43, 63, 92, 123, 125, 124, 94, 36, 46, 97, 255}
-ReCases == One({<<97>>, <<97, 98>>} \cup AllBytes1 \cup [1..2 -> RePunct])
+ReCases == One({<<97>>, <<97, 98>>} \cup AllBytes1 \cup Fn(2, RePunct))
 Lits == {<<97>>, <<97, 98>>, <<98>>}
-ReSCases == Two(Lits, Bytes(AB, 4))
-ReSplitCases == SQ({<<e, s, n>> : e \in Lits, s \in Bytes(AB, 4), n \in {-1, 0, 1, 2}})
+ReSCases == Two(Lits, Bytes(AB, IF Deep THEN 4 ELSE 3))
+ReSplitCases == SQ({<<e, s, n>> : e \in Lits, s \in Bytes(AB, IF Deep THEN 4 ELSE 3), n \in {-1, 0, 1, 2}})
 SpfCases == SQ({<<f, a>> : f \in AllBytes1 \cup {<<37, b>> : b \in 0..255} \cup Bytes({97, 32}, 2), a \in {<<>>, << <<120>> >>}})
 SprintCases == One(StrLists)
 HashIn == {<<>>, <<97>>, <<255, 0>>}
 
+Arg1 == One(QEStrings)
+Arg2 == One(FVStrings)
+Arg3 == One(IntTexts)
+Arg4 == Two(IntTexts, IntTexts)
+Arg5 == Two(IntTexts, IntTexts)
+Arg6 == One(CapStrings)
+Arg7 == One(CaseStrings)
+Arg8 == One(CaseStrings)
+Arg9 == One(CaseStrings)
+Arg10 == One(KebabStrings)
+Arg11 == One(HashIn)
+Arg12 == One(HashIn)
+Arg13 == One(HashIn)
+Arg14 == Two(HashIn, HashIn)
+Arg15 == Two(HashIn, HashIn)
 All ==
-     Mk("QueryEscape", One(QEStrings)) \o Mk("FormValueOfEscaped", One(FVStrings)) \o Mk("Abbreviate", AbCases)
+     Mk("QueryEscape", Arg1) \o Mk("FormValueOfEscaped", Arg2) \o Mk("Abbreviate", AbCases)
   \o Mk("MarshalJSONIndent", MJICases) \o Mk("IndentJSON", IJCases) \o Mk("MarshalJSON", MJCases) \o Mk("MarshalYAML", MJCases)
   \o Mk("UnmarshalJSON", UJCases) \o Mk("UnmarshalYAML", UYCases)
-  \o Mk("Abs", One(IntTexts)) \o Mk("Max", Two(IntTexts, IntTexts)) \o Mk("Min", Two(IntTexts, IntTexts))
+  \o Mk("Abs", Arg3) \o Mk("Max", Arg4) \o Mk("Min", Arg5)
   \o Mk("HasPrefix", SearchCases) \o Mk("HasSuffix", SearchCases) \o Mk("Index", SearchCases) \o Mk("LastIndex", SearchCases)
   \o Mk("TrimPrefix", SearchCases) \o Mk("TrimSuffix", SearchCases)
   \o Mk("IndexAny", RuneCases) \o Mk("Trim", RuneCases) \o Mk("TrimLeft", RuneCases) \o Mk("TrimRight", RuneCases)
@@ -144,19 +166,25 @@ All ==
   \o Mk("Split", SplCases) \o Mk("SplitAfter", SplCases) \o Mk("SplitN", SplNCases) \o Mk("SplitAfterN", SplNCases)
   \o Mk("Join", JoinCases) \o Mk("RuneCount", RuneCountCases) \o Mk("Reverse", RevCases) \o Mk("Sort", SortCases)
   \o Mk("Base64", EncCases) \o Mk("Hex", EncCases)
-  \o Mk("Capitalize", One(CaseStrings)) \o Mk("CapitalizeAll", One(CaseStrings)) \o Mk("ToLower", One(CaseStrings))
-  \o Mk("ToUpper", One(CaseStrings)) \o Mk("ToKebab", One(KebabStrings))
+  \o Mk("Capitalize", Arg6) \o Mk("CapitalizeAll", Arg7) \o Mk("ToLower", Arg8)
+  \o Mk("ToUpper", Arg9) \o Mk("ToKebab", Arg10)
   \o Mk("ParseInt", PICases) \o Mk("ParseFloat", PFCases) \o Mk("ParseDuration", PDCases) \o Mk("ParseTime", PTCases)
   \o Mk("Date", DateCases) \o Mk("FormatInt", FICases) \o Mk("FormatFloat", FFCases)
   \o Mk("RegExp", ReCases) \o Mk("Regexp.Match", ReSCases) \o Mk("Regexp.Find", ReSCases) \o Mk("Regexp.Split", ReSplitCases)
   \o Mk("Sprintf", SpfCases) \o Mk("Sprint", SprintCases)
-  \o Mk("Md5", One(HashIn)) \o Mk("Sha1", One(HashIn)) \o Mk("Sha256", One(HashIn))
-  \o Mk("HmacSHA1", Two(HashIn, HashIn)) \o Mk("HmacSHA256", Two(HashIn, HashIn))
-Cases == [i \in 1..Len(All) |-> [id |-> i, fn |-> All[i].fn, args |-> All[i].args]]
-ASSUME Part = "main" => ndJsonSerialize("cases.ndjson", Cases)
+  \o Mk("Md5", Arg11) \o Mk("Sha1", Arg12) \o Mk("Sha256", Arg13)
+  \o Mk("HmacSHA1", Arg14) \o Mk("HmacSHA256", Arg15)
+Cases == LET A == All IN [i \in 1..Len(A) |-> [id |-> i, fn |-> A[i].fn, args |-> A[i].args]]
+\* Two TLC runs: Part = "export" writes the cases; Part = "main" reads them back.  (TLC caches a zero-argument
+\* constant definition only if it does not depend on a RECURSIVE operator - Cases does, CasesIn does not - and an
+\* uncached Cases would be rebuilt for every state.)
+ASSUME Part = "export" => ndJsonSerialize("cases.ndjson", Cases)
+CasesIn == ndJsonDeserialize("cases.ndjson")
 
-TableStrings == SQ(Bytes(0..255, TableLen))
-Items == IF Part = "main" THEN Cases ELSE [i \in 1..Len(TableStrings) |-> [id |-> i, fn |-> "table", args |-> <<TableStrings[i]>>]]
+TableStrings == SQ(SeqsUpTo(0..255, TableLen) \X {TableSize, 256})          \* the table as written and the proposed [256]
+Items == IF Part = "main" THEN CasesIn
+         ELSE IF Part = "table" THEN [i \in 1..Len(TableStrings) |-> [id |-> i, fn |-> "table", args |-> TableStrings[i]]]
+         ELSE <<>>
 N == Len(Items)
 
 (* ---- the walk: a root, NB blocks, the items of each block (so that all workers are used) ---- *)
@@ -207,11 +235,12 @@ RefConsistent == (c > 0 /\ Part = "main") =>
 
 (* ---- Part = "table" (diagnostic) ---- *)
 TableOnlyWS == (c > 0 /\ Part = "table") =>
-  LET s == Items[c].args[1] IN \/ OnlyWSImpl(s, TableSize) = (IF RefOnlyWS(s) THEN "true" ELSE "false")
-                               \/ (PrintT(<<"onlyJSONWhitespace model", s, OnlyWSImpl(s, TableSize)>>) /\ FALSE)
+  LET s == Items[c].args[1] size == Items[c].args[2] IN
+  \/ OnlyWSImpl(s, size) = (IF RefOnlyWS(s) THEN "true" ELSE "false")
+  \/ (PrintT(<<"onlyJSONWhitespace model", size, s, OnlyWSImpl(s, size)>>) /\ FALSE)
 \* trimJSONSpace is called on the data of IndentJSON before validation: it must return the trimmed text
 TableTrim == (c > 0 /\ Part = "table") =>
-  LET s == Items[c].args[1] r == TrimJSONSpaceImpl(s, TableSize) IN
+  LET s == Items[c].args[1] size == Items[c].args[2] r == TrimJSONSpaceImpl(s, size) IN
   \/ (~r.panic /\ r.out = TrimBytes(s, WS))
-  \/ (PrintT(<<"trimJSONSpace model", s, r>>) /\ FALSE)
+  \/ (PrintT(<<"trimJSONSpace model", size, s, r>>) /\ FALSE)
 =============================================================================
